@@ -7,8 +7,19 @@ register('C10', 'proof',
          'formula assumed for the abstract ProcessCommand.timed_out); fail_command emits exactly one '
          'force_process_state with FATAL (start job) / STOPPED (stop job); force_process_state builds the forced payload '
          '(forced, state, reason, target identifier, time of the last event), applies it locally through the fsm and then '
-         'publishes the same payload; both propagate the re-entrancy discipline of the call-out.',
+         'publishes the same payload; both propagate the re-entrancy discipline of the call-out. '
+         'Periodic work of the FSM (effect postconditions on the ghost call log, statemachine.py): EVERY '
+         'FiniteStateMachine.next() calls starter.check() then stopper.check() (receivers logged) before the state object '
+         'is evaluated; _MasterSlaveState / _WorkingState._common_next tell the Starter then the Stopper '
+         '(on_instances_invalidation with the report of this evaluation) iff the report holds a lost INSTANCE (also without '
+         'lost process), and every next() of the five Master/slave state classes runs that step exactly once unless the '
+         'state object decides on its own to leave the state before it.',
          not_decided=['end-to-end bound as one theorem (composition with C07 and Supervisor startretries)',
+                      'next() of a working / ending state that leaves early (new instance, local or Master lost, failure '
+                      'strategy) does NOT pass the lost instances to Starter / Stopper: the entry actions of SYNCHRONIZATION / '
+                      'ELECTION / RESTARTING / SHUTTING_DOWN abort all jobs (C08 clause 3, C09 clause 2), those of OFF / FINAL do '
+                      'not, and a refused transition (C08 findings) keeps the state: these cases are only covered by the '
+                      'periodic check()',
                       'clause 2 ApplicationJobs.check and clause 4 on_instances_invalidation: contract written '
                       '(contracts/wip_c10_check.txt) but not converged under the honest re-entrancy discipline - NOT claimed; '
                       'safe:ValueError@check:582 is refuted there and reproduced natively (findings/C10_check_valueerror_demo.py)',
@@ -22,7 +33,10 @@ register('C10', 'proof',
                       'call the re-entered Starter/Stopper keeps its in-flight list object, and its plan only shrinks: remaining '
                       'groups are the same list objects, sequence numbers leave in pickup order or all at once (ABORT/STOP)',
                       'rpc_handler.send_* are effects only (transport outside the model)',
-                      'shape validity: one Supvisors root; the local identifier is a key of context.instances'])
+                      'shape validity: one Supvisors root; the local identifier is a key of context.instances',
+                      'FSM clauses: assumed call-out contracts of contracts/assumed_fsm.py (Commander.check / '
+                      'on_instances_invalidation are logged with their receiver and keep the state & modes view and the '
+                      'lost_instances / lost_processes fields of the state objects - single writer scanned by structural_c02)'])
 register('C03', 'proof',
          'Sequencing discipline proved per call on the real source. ApplicationJobs.next (start variant, pickup_logic = min '
          'resolved from the class): nothing is triggered and nothing changes while a command is in flight; sequence numbers '
@@ -55,7 +69,11 @@ register('C09', 'proof',
          'plan in DEcreasing order; commands sharing a sequence number are passed to process_job in the same call; returns '
          'with a command in flight or an empty plan - fully discharged for the stop variant. ApplicationStopJobs.process_job: '
          'exactly one send_stop_process(identifier, namespec) iff process.running_on(identifier), nothing otherwise. '
-         'ProcessStopCommand.on_event: SUCCESS iff the target reports a stopped state. fail_command forces STOPPED.',
+         'ProcessStopCommand.on_event: SUCCESS iff the target reports a stopped state. fail_command forces STOPPED. '
+         'Ending states (quantifier "loss of a non-Master instance during the ending phase"): RestartingState / '
+         'ShuttingDownState.next() run _common_next exactly once unless they propose FINAL on their own, and _common_next '
+         'tells Starter and Stopper iff an INSTANCE was invalidated (pending stop commands of a lost instance are dropped '
+         'even when no process is reported lost).',
          not_decided=['"reaches the Master", exactly-once delivery to every live instance, true process states',
                       'clause 2 (on_restart / on_shutdown re-routing) and the ending states: other agent (statemachine.py)',
                       'Stopper.store_application (commands only for running_identifiers), Commander.next at application level: '
@@ -233,11 +251,15 @@ register('C01', 'other',
          'nick identifier of the core candidates, or of all candidates when none is a core member; corollary: a single '
          'recognised Master is kept; the master_identifier setter declares and publishes it. Known finding: KeyError when '
          'a recognised Master is unknown to the local mapper (A24). '
+         'ElectionState.next (effect postcondition): select_master is called exactly once in every evaluation that stays in '
+         'ELECTION with a stable context - also when a Master is already known locally (healed split-brain) - and never while '
+         'unstable nor in the evaluation that leaves ELECTION. Master-only automatic actions (C01.5): '
+         'FiniteStateMachine.on_process_state_event emits no failure job / trigger / restart / shutdown / transition unless '
+         'the local instance is the Master; _MasterSlaveState.enter only acts on the Master (c02). '
          'Agreement between instances is NOT proved (property of N interleaved FSMs).',
          not_decided=['agreement / convergence over schedules of N instances (no per-call contract expresses it)',
                       'evaluate_stability (the comprehension invariant relating the list of published stable RUNNING sets '
-                      'to the instances seen RUNNING is undecided within the budget: contracts/pending_c01_evaluate_stability.txt); '
-                      'ElectionState.next guards, Master-only automatic actions (C01.5) - FSM agent',
+                      'to the instances seen RUNNING is undecided within the budget: contracts/pending_c01_evaluate_stability.txt)',
                       'select_master: a declared Master that is known to the mapper but not seen RUNNING locally is a '
                       'legitimate candidate of the rule as stated ("the Masters still recognised"); "the Master is seen '
                       'RUNNING by all" needs the rely condition on peers'],
@@ -276,7 +298,9 @@ register('C02', 'proof',
          'next()/on_restart/on_shutdown can make; _Transitions (read from the AST) is inside the documented graph, FINAL '
          'terminal; the setter publishes iff the state changes. (3) Every value returned by next() of each of the nine '
          'state classes (whole super() chain executed symbolically, Context / Starter / Stopper call-outs by contract) '
-         'satisfies the Master clause, except the known finding (SHUTDOWN failure strategy).',
+         'satisfies the Master clause, except the known finding (SHUTDOWN failure strategy). Structural obligation 6: the '
+         'report fields lost_instances / lost_processes of the state objects have a single writer (_check_instances), which '
+         'justifies that the frames of the call-outs protect them.',
          not_decided=['re-entrant FSM transitions out of Starter/Stopper/failure-handler call-outs (forced process event with '
                       'running failure strategy RESTART/SHUTDOWN on the Master) are not modelled inside next(); they go '
                       'through set_state and its table check like every other write',
@@ -342,11 +366,23 @@ register('C06', 'proof',
          'whole-view postconditions per method (which elements enter / leave which set; the in-place filter loops carry '
          'sidecar invariants), "the failure is covered by the job the precedence designates or a stronger one", "no job is '
          'forgotten", and the promotion RESTART_PROCESS -> RESTART_APPLICATION when the application is STOPPED and the '
-         'process is in its start sequence. get_start_sequenced_processes proved equal to its definition.',
+         'process is in its start sequence. get_start_sequenced_processes proved equal to its definition. '
+         'FSM side (effect postconditions, contracts/c02.py): _WorkingState._master_next registers exactly one failure job '
+         'per lost process (per-iteration clause) and triggers the handler once iff a process was lost, nothing otherwise; '
+         'the _master_next override of EVERY working state must run that step exactly once - proved for DISTRIBUTION and '
+         'OPERATION, REFUTED for CONCILIATION (genuine defect, native demo: the override never calls super()); every '
+         'FiniteStateMachine.next() calls failure_handler.trigger_jobs() exactly once before evaluating the state (deferred '
+         'repairs); on_process_state_event: no automatic action unless Master; RESTART / SHUTDOWN / failure job only for a '
+         'crashed process with that strategy, a failure job only when the state is not forced, followed by one trigger; and '
+         'conversely a Master taking no action saw no crash or a CONTINUE / RESTART_PROCESS strategy or a forced state.',
          not_decided=['trigger_* (deferral while the application has Starter/Stopper jobs, one Stopper call per job): '
                       'contract of trigger_jobs is ASSUMED (only removes elements), not verified - left undone',
-                      '_WorkingState._master_next / on_process_state_event Master-only guards and '
-                      'Commander.on_instances_invalidation: not done here',
+                      'Commander.on_instances_invalidation (what the Starter / Stopper drop): commander group; here only that '
+                      'it is called (C10 clauses)',
+                      '"each lost process gets a job" composes the per-iteration clause with the meta-fact that a for-loop over '
+                      'a set visits each element once',
+                      'the Master-only guard is evaluated on the local declaration (is_master); that at most one instance '
+                      'regards itself as Master is C01',
                       'Context.invalidate_failed exactness as a whole: not under contract (see C07); its selection step '
                       '(SupvisorsInstanceStatus.running_processes) is proved equal to its definition and the lemma "every '
                       'process listed on the lost instance is selected" is refuted = known finding A11 (contracts/c07.py, '
